@@ -178,3 +178,17 @@ PROPS["C02"] = {
     "assumptions": COMMON_ASSUMPTIONS + ["cryptographic strength of HMAC-SHA256 / AES is not in scope: the check shows that the MAC covers what it must and that decoding is strict",
                                           "an altered string that decodes to the identical bytes (unused trailing bits of padded base64) and yields exactly the issued session is allowed by the statement"],
 }
+
+PROPS["C08"] = {
+    "level": "exploration",
+    "quick_runs": 1200, "quick_budget_s": 150, "thorough_budget_s": 600,
+    "rule": "one run = one world (store, e-mail domain rules exact / leading dot / wildcard / * / mixed case / none, authenticated-e-mails file, allowed groups, htpasswd users "
+            "(+group)) + identities with odd addresses (mixed case, sub-domains, look-alike suffixes, several @) + a history: 2-5 logins (OIDC or htpasswd form), requests, then 1-3 "
+            "RULE CHANGES - the e-mails file rewritten (new set, one entry removed, emptied, comments only; optionally a malformed version delivered first, the reload event delayed "
+            "or duplicated) with the reload delivered by the SimWatcher to the real reload closure, or a replica restart with other domain / group options while jars and Redis "
+            "survive - each followed by requests of every session (upstream path or /oauth2/auth with allowed_groups / allowed_emails / allowed_email_domains constraints as comma "
+            "lists, repeated parameters, empty items); oracle = independent rule semantics: served <=> the currently LOADED rules admit the session, refusal = 401/403 + cookie "
+            "deletion; non-trivial = at least one session was refused after a rule change; distinct = distinct history + event hash",
+    "level_text": "seeded search over rule-change histories (file reloads through the watcher seam, restarts) between login and later requests",
+    "assumptions": COMMON_ASSUMPTIONS + ["allowed_emails differing only in case and allowed_email_domains for addresses with several @ are judged 'either'"],
+}
